@@ -22,6 +22,26 @@ func decodeCase(k lib.Kind, s string, nilRecv bool) Case {
 	return c
 }
 
+// decodeCaseMode records the receiver mode (lib.RecvFresh / RecvNil / RecvQueried).
+func decodeCaseMode(k lib.Kind, s string, mode int) Case {
+	c := decodeCase(k, s, mode == lib.RecvNil)
+	if mode == lib.RecvQueried {
+		c.Args = map[string]string{"receiver": "constructor result queried before Decode"}
+	}
+	return c
+}
+
+// caseMode recovers the receiver mode of a replayed case.
+func caseMode(c Case) int {
+	if c.NilRcv {
+		return lib.RecvNil
+	}
+	if c.Args["receiver"] != "" {
+		return lib.RecvQueried
+	}
+	return lib.RecvFresh
+}
+
 func kindByName(n string) lib.Kind {
 	for i, s := range lib.KindNames {
 		if s == n {
